@@ -7,6 +7,10 @@ use vcore::luarun::{run_lua, LuaOutcome, Terminal};
 use vcore::{compile, Check, Labels, Outcome, Project, Stats, Step, Tape, Tier, Verdict};
 
 pub struct C01;
+pub const CHECK: C01 = C01;
+pub fn plan(t: Tier) -> vcore::Plan {
+    vcore::Plan::new(t.pick(6_000, 400_000), t.pick(2600, 4000))
+}
 
 impl Check for C01 {
     type Case = ProgCase;
